@@ -63,6 +63,19 @@ Example C10_ex_new :
   [Some (10, 20, [(10, 20)]); Some (10, 20, [(10, 20)]); Some (11, 21, [(11, 21)])].
 Proof. vm_compute. split; reflexivity. Qed.
 
+(* two timelines GIVEN the same caller-owned scale object 0 do share it (the
+   property allows exactly that), a third one with its own default scale is
+   unaffected: the well-formedness hypothesis of C10_isolation is met *)
+Definition hShared : list (op nat nat) :=
+  [Construct 0 10 20 (Caller 0); Construct 2 12 22 Default; Construct 1 11 21 (Caller 0);
+   Export 0; Export 2; Export 1].
+Example C10_ex_caller :
+  wf_hist nat nat 1 hShared = true /\
+  run nat nat _ _ ia rd [] (init_state nat nat _ [[(99, 99)]]) hShared =
+  [Some (10, 20, [(99, 99); (10, 20); (11, 21)]); Some (12, 22, [(12, 22)]);
+   Some (11, 21, [(99, 99); (10, 20); (11, 21)])].
+Proof. vm_compute. split; reflexivity. Qed.
+
 Theorem C10_refuted_old :
   exists h : list (op nat nat),
     run_old nat nat _ _ ia rd [] (init_state nat nat _ [[]]) h <>
